@@ -1,9 +1,12 @@
 package main
 
 import (
+	"bufio"
+	"bytes"
 	"encoding/json"
 	"flag"
 	"fmt"
+	"io"
 	"os"
 	"os/exec"
 	"runtime"
@@ -235,6 +238,42 @@ func taskBody(env *taskEnv, t *TaskScn) func() string {
 				commonmark.Walk(st.root, env.sharedWO)
 			}()
 			return st.sb.String()
+		}
+	case "stream-std":
+		// block-by-block parsing from a STANDARD-LIBRARY reader value that sits
+		// directly on the task's input (in arena scenarios a sub-slice whose
+		// spare capacity is the next task's document): whatever a callee does
+		// with the memory behind a reader type it recognises, it must not write
+		// to it, and must not read beyond the reader's end
+		return func() string {
+			in := input()
+			var rd io.Reader
+			switch (t.Doc + len(in)) % 4 {
+			case 0, 1:
+				rd = bytes.NewBuffer(in)
+			case 2:
+				rd = bytes.NewReader(in)
+			default:
+				rd = bufio.NewReaderSize(bytes.NewBuffer(in), 16+len(in)%300)
+			}
+			p := commonmark.NewBlockParser(rd)
+			var blocks []*commonmark.RootBlock
+			refs := make(commonmark.ReferenceMap)
+			var last error
+			for len(blocks) <= 4*len(in)+16 {
+				b, err := p.NextBlock()
+				if err != nil {
+					last = err
+					break
+				}
+				blocks = append(blocks, b)
+				refs.Extract(b.Source, b.AsNode())
+			}
+			ip := &commonmark.InlineParser{ReferenceMatcher: refs}
+			for _, b := range blocks {
+				ip.Rewrite(b)
+			}
+			return snapAll(blocks) + "REFS\n" + snapRefs(refs) + fmt.Sprintf("ERR %v", last)
 		}
 	case "stream-shared-ip":
 		return func() string {
